@@ -200,6 +200,8 @@ def run_property(pid: str, tier: str, repo_root: str, fn: Callable, title: str =
         print(f"ANALYSIS-ERROR property={pid} {e}")
         _stub_evidence(pid, tier, str(e))
         return 2
+    from .core import set_active_repo
+    set_active_repo(repo)
     chk = Check(pid, tier, repo, title)
     chk.only = only
     try:
